@@ -227,11 +227,22 @@ def crop_leading(ctx, rule="C13.crop"):
                 u, par = par, getattr(par, "parent", None)
             if isinstance(par, (ast.Assign, ast.AnnAssign)) and par.value is u:
                 continue                     # the definition of a local: its uses are examined
+            # only positional uses are obligations: the value (possibly inside arithmetic) bounds a slice or a range
+            direct, top = True, par
+            while top is not None and not isinstance(top, (ast.Slice, ast.stmt)) and not \
+                    (isinstance(top, ast.Call) and dotted(top.func) == "range"):
+                if isinstance(top, (ast.BinOp, ast.UnaryOp)):
+                    direct = False
+                    top = getattr(top, "parent", None)
+                else:
+                    top = None
+            if not isinstance(top, (ast.Slice, ast.Call)):
+                continue                     # a test, a message, an argument of something else: not a bound
             k += 1
             n += 1
-            ok = (isinstance(par, ast.Slice) and par.lower is u) or \
-                (isinstance(par, ast.Call) and dotted(par.func) == "range" and len(par.args) >= 2 and par.args[0] is u)
-            ctx.ob(rule, f.site, ok, "" if ok else f"`{ast.unparse(par)[:60] if par is not None else ast.unparse(u)}`: the crop value is not the "
+            ok = direct and ((isinstance(top, ast.Slice) and top.lower is u) or
+                             (isinstance(top, ast.Call) and len(top.args) >= 2 and top.args[0] is u))
+            ctx.ob(rule, f.site, ok, "" if ok else f"`{ast.unparse(top)[:60]}`: the crop value is not the "
                    "lower bound of a slice / start of a range - the wrong end of the time bins is kept", role=f"crop-use:{k}", line=u.lineno)
     ctx.require(n >= 2, f"only {n} uses of get_crop_value() found in engine.py")
     ctx.floor(rule, 2)
